@@ -1604,6 +1604,46 @@ theorem c16_model_dict_walk_inline (X : Codec) (rd : Frag → Rd.R) (w : Val →
     Rd.dictWalkInline rd n s = some (flattenF w (n + 1) n [] tv, s') :=
   Blk.dictWalkInline_sound X rd w hrd n s tv s' h
 
+/-- `ShardAccounts.deserialize` = `load_hashmap_aug_e(256, ShardAccount.deserialize, DepthBalanceInfo.deserialize)`, regenerated from the
+    source: on the spec encoding of ANY `HashmapAugE 256 ShardAccount DepthBalanceInfo` value (no `addr_var` inside) followed by ANY trailer
+    it returns the tuple (dict key ↦ ShardAccount of the decoded Patricia tree in key order, list of the `extra:DepthBalanceInfo` of every
+    node, children before their fork) — `({}, [extra])` for an empty dictionary — and consumes exactly the encoding, the top-level
+    `extra` included.  The walk is the hand model `Rd.augWalk` proved sound against the spec tree (`c16_model_aug_walk`). -/
+theorem c16_src_ShardAccounts (v : Val) (f : Frag) (he : shardAccounts.enc v = some f) (hv : v.noVar = true) (k : Frag) :
+    SrcBlk.ShardAccounts false (f ++ k) = some (Blk.view_ShardAccounts v, k) :=
+  Blk.refines_ShardAccounts.on_encoding v f he hv k
+
+/-- `OldMcBlocksInfo.deserialize` = `load_hashmap_aug_e(32, KeyExtBlkRef.deserialize, KeyMaxLt.deserialize)`, regenerated from the source:
+    the `(dict, extras)` tuple of the decoded `HashmapAugE 32 KeyExtBlkRef KeyMaxLt`, exact consumption. -/
+theorem c16_src_OldMcBlocksInfo (v : Val) (f : Frag) (he : oldMcBlocksInfo.enc v = some f) (k : Frag) :
+    SrcBlk.OldMcBlocksInfo false (f ++ k) = some (Blk.view_OldMcBlocksInfo v, k) :=
+  Blk.refines_OldMcBlocksInfo.on_encoding v f he k
+
+/-- `BlockCreateStats.deserialize` (`block_create_stats#17`: `load_dict(256, CreatorStats.deserialize)`; `block_create_stats_ext#34`:
+    `load_hashmap_aug_e(256, CreatorStats.deserialize, load_uint(32))`), regenerated from the source: every field, exact consumption. -/
+theorem c16_src_BlockCreateStats (v : Val) (f : Frag) (he : blockCreateStats.enc v = some f) (k : Frag) :
+    SrcBlk.BlockCreateStats false (f ++ k) = some (Blk.view_BlockCreateStats v, k) :=
+  Blk.refines_BlockCreateStats.on_encoding v f he k
+
+/-- the hand model of `parse_aug` (boc/hashmap/parse.py; `Rd.augWalk`) returns the entries (left to right) and the extras (children
+    before their fork) of ANY decoded `HashmapAug n X Y` tree value, given a value reader that agrees with `X` and an extra reader
+    that refines `Y` (exact rest: the leaf reads `extra` and then `value` from the same cell). -/
+theorem c16_model_aug_walk (X Y : Codec) (x y : Frag → Rd.R) (wx wy : Val → Val)
+    (hx : ∀ s v, X.dec s = some (v, ⟨[], []⟩) → ∃ k, x s = some (wx v, k)) (hy : Refines y Y wy)
+    (n : Nat) (b : Bits) (r : List Cell) (tv : Val) (h : (hashmapAug n X Y).dec ⟨b, r⟩ = some (tv, ⟨[], []⟩)) :
+    Rd.augWalk x y (n + 1) n [] (Cell.mk false b r) = some (Blk.flattenAug wx (n + 1) n [] tv, Blk.extrasAug wy (n + 1) n tv) :=
+  Blk.augWalk_sound X Y (fun _ => True) x y wx wy (fun s v hd _ => hx s v hd) hy (n + 1) n [] b r tv h (fun _ _ => trivial)
+
+/-- non-vacuity: an empty `OldMcBlocksInfo` (`ahme_empty$0` + `extra:KeyMaxLt`) is encodable, so `c16_src_OldMcBlocksInfo` applies:
+    the regenerated parser returns `({}, [KeyMaxLt(False, 5)])` on its encoding, whatever follows -/
+example : ∃ f, oldMcBlocksInfo.enc (.con "ahme_empty" (.record [("extra", .record [("key", .bool false), ("max_end_lt", .int 5)])])) = some f ∧
+    ∀ k, SrcBlk.OldMcBlocksInfo false (f ++ k) =
+      some (Rd.tuple [Rd.dict [], Rd.list [Rd.obj "KeyMaxLt" [("key", .bool false), ("max_end_lt", .int 5)]]], k) := by
+  have h1 : (oldMcBlocksInfo.enc (.con "ahme_empty" (.record [("extra", .record [("key", .bool false), ("max_end_lt", .int 5)])]))).isSome
+      = true := by decide +kernel
+  obtain ⟨f, hf⟩ := Option.isSome_iff_exists.1 h1
+  exact ⟨f, hf, fun k => c16_src_OldMcBlocksInfo _ f hf k⟩
+
 /-- non-vacuity: `account_none$0` followed by a trailer bit is read as `None`, the trailer is left -/
 example : SrcBlk.Account false ⟨[false, true], []⟩ = some (.unit, ⟨[true], []⟩) := rfl
 
